@@ -51,6 +51,7 @@ class RuleRun:
     self.findings = []
     self.notes = []
     self.error = None
+    self.inconclusive = []
 
   def _where(self, where):
     if isinstance(where, tuple):
@@ -73,12 +74,38 @@ class RuleRun:
     self.instances.append((key, rel, line, False, msg))
     self.findings.append(Finding(self.ctx.prop, self.id, key, rel, line, msg, witness, self.title))
 
-  def check(self, cond, key, where, msg_fail, witness=None, msg_ok=''):
+  def check(self, cond, key, where, msg_fail, witness=None, msg_ok='', evidence=False):
+    """cond holds -> instance held.  Otherwise: with evidence=True the caller asserts that the anchors of the mechanism
+    were located and the required relation between them is *positively* broken -> VIOLATION; without it the failure may
+    just as well mean that the code was restructured beyond what the rule recognises -> inconclusive (exit 2)."""
+    if cond:
+      self.ok(key, where, msg_ok)
+    elif evidence:
+      self.fail(key, where, msg_fail, witness)
+    else:
+      self.unsure(key, where, msg_fail)
+    return bool(cond)
+
+  def unsure(self, key, where, msg):
+    """The mechanism this instance is about could not be recognised in the tree under analysis (it was refactored
+    beyond the fragment the rule understands, or removed).  Not a violation: reported as ANALYSIS-INCONCLUSIVE (exit 2)."""
+    rel, line = self._where(where)
+    self.inconclusive.append((key, rel, line, msg))
+
+  def shape(self, cond, key, where, msg_fail, msg_ok=''):
+    """A recognition check: `cond` says the expected code shape was found. Failure = inconclusive, never a violation."""
     if cond:
       self.ok(key, where, msg_ok)
     else:
-      self.fail(key, where, msg_fail, witness)
+      self.unsure(key, where, msg_fail)
     return bool(cond)
+
+  def judge(self, found, ok, key, where, msg_fail, msg_unsure=None, witness=None):
+    """found: the anchors of the mechanism were located; ok: the required relation between them holds."""
+    if not found:
+      self.unsure(key, where, msg_unsure or ('could not recognise the code this rule checks (%s)' % msg_fail))
+      return False
+    return self.check(ok, key, where, msg_fail, witness, evidence=True)
 
   def note(self, text):
     self.notes.append(text)
@@ -90,7 +117,7 @@ class RuleRun:
 
   @property
   def found(self):
-    return len(self.instances)
+    return len(self.instances) + len(self.inconclusive)
 
 
 class Ctx:
